@@ -25,7 +25,7 @@ FLOORS = {"quick": {"steps": 100000, "sleeps": 20000, "early_sleeps": 3000, "lat
           "thorough": {"steps": 2000000, "sleeps": 400000, "early_sleeps": 60000, "late_sleeps": 40000,
                        "never_ahead_checks": 2000000, "strict_errors_expected": 6000, "strict_boundary_exact_pass": 1000,
                        "strict_checks": 800000, "syncs": 20000, "nonstrict_late_steps": 60000, "tapes_compared": 40000}}
-KEYS = tuple(FLOORS["quick"].keys())
+KEYS = tuple(FLOORS["quick"].keys()) + ("continued_after_strict_error", "huge_int_clock_cases")
 PROFILE = {"weights": {"timeout": 6, "zero": 1, "wait": 2, "succeed": 2, "fail": 0.3, "spawn": 1.5, "join": 1.5,
                        "interrupt": 1, "cb": 0.5, "cond": 1},
            "max_top": 4, "max_child_scripts": 2, "min_ev": 0, "max_ev": 2, "p_exact": 1.0, "p_raise": 0.05,
@@ -69,6 +69,27 @@ class Clock:
 
 def gen_case(rng, i):
     prog = kern.gen_program(rng, PROFILE)
+    if i % 9 == 4:
+        # an integer clock far beyond 2**53 (tick / nanosecond epoch counters): only integer delays keep it exact
+        prog = kern.gen_program(rng, dict(PROFILE, p_exact=1.0))
+        prog["t0"] = rng.choice([2 ** 60, 2 ** 55 + 1, 10 ** 18])
+
+        def ints(ops):
+            for op in ops:
+                if op[0] == "timeout":
+                    op[1] = int(op[1] * 4)
+                elif op[0] == "cond":
+                    fix(op[1])
+
+        def fix(tree):
+            for k in tree[2]:
+                if k[0] == "t":
+                    k[1] = int(k[1] * 4)
+                elif k[0] in ("all", "any"):
+                    fix(k)
+        for sc in prog["scripts"]:
+            ints(sc["ops"])
+        prog["huge_int_clock"] = True
     factor = rng.choice([0.25, 0.5, 1, 1, 2, 0.01])
     strict = rng.random() < 0.5
     kind = rng.choice(["exact", "early", "late", "mixed"])
@@ -89,7 +110,8 @@ def gen_case(rng, i):
     syncs = sorted(rng.sample(range(1, 60), rng.randint(0, 3))) if rng.random() < 0.5 else []
     return {"program": prog, "factor": factor, "strict": strict, "eps": eps, "burns": burns, "syncs": syncs,
             "sync_before": rng.random() < 0.3, "start_wall": rng.choice([0, 100, 1000.5]),
-            "construct_lag": rng.choice([0, 0, factor, 5 * factor])}
+            "construct_lag": rng.choice([0, 0, factor, 5 * factor]),
+            "after_error": rng.choice(["stop", "retry", "retry", "sync"])}
 
 
 def run_case(case, stats):
@@ -103,6 +125,8 @@ def run_case(case, stats):
 
     prog = case["program"]
     factor, strict, t0 = case["factor"], case["strict"], prog["t0"]
+    if prog.get("huge_int_clock"):
+        stats["huge_int_clock_cases"] += 1
     dyadic = factor != 0.01
     clock = Clock(case["eps"], case["start_wall"])
     old = (rt.monotonic, rt.sleep)
@@ -121,6 +145,7 @@ def run_case(case, stats):
         r = kern.Runner(K, prog, env=env)
         r.start()
         nstep = 0
+        nretry = 0
         stopped_by_strict = False
         close_to_boundary = False
         while True:
@@ -167,8 +192,19 @@ def run_case(case, stats):
                 break
             if got_err:
                 stats["strict_errors_expected"] += 1
-                stopped_by_strict = True
-                break
+                # a caller may catch the error and go on.  Nothing but sync() re-bases real_start, so the same step
+                # is still too late and must raise again; after sync() it is on time.
+                mode = case.get("after_error", "stop")
+                if mode == "stop" or nretry >= 2:
+                    stopped_by_strict = True
+                    break
+                nretry += 1
+                stats["continued_after_strict_error"] += 1
+                if mode == "sync" or nretry == 2:
+                    env.sync()                       # re-bases real_start to the moment of the call
+                    rs = clock.t
+                    stats["syncs"] += 1
+                continue
             # (b) never ahead of the wall clock: the occurrence just processed was due at env.now
             stats["never_ahead_checks"] += 1
             need = rs + (env.now - t0) * factor
